@@ -36,16 +36,26 @@ Definition fsd_bind_rel (p q : N * list value) : Prop := fst p = fst q /\ fsd_va
 Definition fsd_fields_rel := Forall2 fsd_bind_rel.
 Definition fsd_acc_rel (a b : msg_macc) : Prop := fsd_fields_rel (fst a) (fst b) /\ fsd_unk_rel (snd a) (snd b).
 
+(* the error classes agree, except that the reflection path may report the recursion limit where the
+   table-driven path reports a parse error: an end-group tag carrying the number of a map field,
+   met when no depth is left for a map entry (the reflection path notices the end-group tag only
+   in ConsumeFieldValue, after the depth check of the map field) *)
+Definition fsd_err_rel (e_slow e_fast : derr) : Prop :=
+  e_slow = e_fast \/ (e_slow = DDepth /\ e_fast = DParse).
+
 Definition fsd_res_rel {A} (R : A -> A -> Prop) (x y : dres A) : Prop :=
   match x, y with
   | DOk a, DOk b => R a b
-  | DErr e, DErr e' => e = e'
+  | DErr e, DErr e' => fsd_err_rel e e'
   | _, _ => False
   end.
 
+Ltac fsd_eq := first [reflexivity | left; reflexivity].
+
 Definition fsd_out_rel (a b : msg_macc * list byte) : Prop := fsd_acc_rel (fst a) (fst b) /\ snd a = snd b.
+(* outside a group (grp = 0; the schemas considered have no group-typed fields) *)
 Definition fsd_dec_rel (ds df : msg_dec_t) : Prop :=
-  forall tid grp g bs a_s a_f, fsd_acc_rel a_s a_f -> fsd_res_rel fsd_out_rel (ds tid grp g bs a_s) (df tid grp g bs a_f).
+  forall tid g bs a_s a_f, fsd_acc_rel a_s a_f -> fsd_res_rel fsd_out_rel (ds tid 0 g bs a_s) (df tid 0 g bs a_f).
 
 Lemma fsd_acc_empty : fsd_acc_rel ([], []) ([], []).
 Proof. split; constructor. Qed.
@@ -162,19 +172,19 @@ Lemma fsd_dec_entry kk kutf8 vk vutf8 (dm_s dm_f : list byte -> value -> dres va
     fsd_res_rel fsd_entry_rel (msg_dec_entry g kk kutf8 vk vutf8 dm_s bs key val)
                               (msg_dec_entry g kk kutf8 vk vutf8 dm_f bs key val').
 Proof.
-  intros Hdm. induction g as [|x g IH]; intros bs key val val' V; cbn [msg_dec_entry]; [reflexivity|].
-  destruct bs as [|b0 bs0]; [split; [reflexivity|exact V]|].
-  destruct (dec_tag (b0 :: bs0)) as [[[num typ] r]|e]; [|reflexivity].
-  destruct (msg_max_num <? num); [reflexivity|].
-  destruct (parse_val default_dep num typ r) as [[w r']|e]; [|reflexivity].
+  intros Hdm. induction g as [|x g IH]; intros bs key val val' V; cbn [msg_dec_entry]; [fsd_eq|].
+  destruct bs as [|b0 bs0]; [split; [fsd_eq|exact V]|].
+  destruct (dec_tag (b0 :: bs0)) as [[[num typ] r]|e]; [|fsd_eq].
+  destruct (msg_max_num <? num); [fsd_eq|].
+  destruct (parse_val default_dep num typ r) as [[w r']|e]; [|fsd_eq].
   destruct (num =? 1).
-  - destruct (msg_dec_scalar kk kutf8 w) as [[s|e]|]; [now apply IH|reflexivity|now apply IH].
+  - destruct (msg_dec_scalar kk kutf8 w) as [[s|e]|]; [now apply IH|fsd_eq|now apply IH].
   - destruct (num =? 2); [|now apply IH].
     destruct vk as [sk|t|t].
-    + destruct (msg_dec_scalar sk vutf8 w) as [[s|e]|]; [apply IH; constructor|reflexivity|now apply IH].
+    + destruct (msg_dec_scalar sk vutf8 w) as [[s|e]|]; [apply IH; constructor|fsd_eq|now apply IH].
     + destruct w; try (now apply IH).
       pose proof (Hdm b val val' V) as Hr. unfold fsd_res_rel in Hr.
-      destruct (dm_s b val) as [a|e], (dm_f b val') as [a'|e']; try contradiction; [now apply IH|congruence].
+      destruct (dm_s b val) as [a|e], (dm_f b val') as [a'|e']; try contradiction; [now apply IH|exact Hr].
     + now apply IH.
 Qed.
 
@@ -185,8 +195,8 @@ Lemma fsd_unknown bs num typ r a_s a_f :
                           (msg_unknown (enc_tag num typ) num typ r a_f).
 Proof.
   intros Hd [F U]. unfold msg_unknown.
-  destruct (parse_val default_dep num typ r) as [[w r']|e] eqn:Ep; [|reflexivity].
-  cbn [fsd_res_rel]. split; [|reflexivity]. cbn [fst snd]. split; [exact F|].
+  destruct (parse_val default_dep num typ r) as [[w r']|e] eqn:Ep; [|fsd_eq].
+  cbn [fsd_res_rel]. split; [|fsd_eq]. cbn [fst snd]. split; [exact F|].
   apply dec_tag_sound in Hd. destruct Hd as (p & -> & Ht).
   apply parse_val_sound in Ep. destruct Ep as (val & -> & Hv).
   rewrite !app_length, !Nat.add_sub, !firstn_app, !Nat.sub_diag, !firstn_all, !firstn_O, !app_nil_r.
@@ -197,7 +207,7 @@ Lemma fsd_whole (ds df : msg_dec_t) tid payload old old' :
   fsd_dec_rel ds df -> fsd_acc_rel old old' ->
   fsd_res_rel fsd_acc_rel (msg_whole ds tid payload old) (msg_whole df tid payload old').
 Proof.
-  intros Hd Ho. unfold msg_whole. pose proof (Hd tid 0 (x00 :: payload) payload old old' Ho) as H.
+  intros Hd Ho. unfold msg_whole. pose proof (Hd tid (x00 :: payload) payload old old' Ho) as H.
   unfold fsd_res_rel in *. destruct (ds tid 0 (x00 :: payload) payload old) as [[m r]|e],
     (df tid 0 (x00 :: payload) payload old') as [[m' r']|e']; try contradiction; [|exact H].
   destruct H as [H _]. exact H.
@@ -357,28 +367,28 @@ Section StepRel.
              end
            else msg_unknown (enc_tag num typ) num typ r a_f
          end)) as Hnonmap.
-    { intros c. destruct (f_kind fd) as [sk|t|t] eqn:Ek; [| |exfalso; eapply Hng; reflexivity].
+    { intros c. destruct (f_kind fd) as [sk|t|t] eqn:Ek; [| |exfalso; eapply Hng; fsd_eq].
       - rewrite Hutf. destruct (typ =? sk_wt sk).
-        + destruct (parse_val 0 num typ r) as [[w r']|e]; [|reflexivity].
-          destruct (msg_dec_scalar sk (msg_field_utf8 false fd) w) as [[s|e]|]; [|reflexivity|exact HU].
-          split; [|reflexivity]. split; [|exact U]. cbn [fst snd]. now apply fsd_store_scalar.
+        + destruct (parse_val 0 num typ r) as [[w r']|e]; [|fsd_eq].
+          destruct (msg_dec_scalar sk (msg_field_utf8 false fd) w) as [[s|e]|]; [|fsd_eq|exact HU].
+          split; [|fsd_eq]. split; [|exact U]. cbn [fst snd]. now apply fsd_store_scalar.
         + destruct ((typ =? 2) && msg_packable sk && card_repeated c); [|exact HU].
-          destruct (dec_bytes r) as [[payload r']|e]; [|reflexivity].
-          destruct (msg_dec_packed (x00 :: payload) sk payload []) as [vs|e] eqn:Edp; [|reflexivity].
-          split; [|reflexivity]. split; [|exact U]. cbn [fst snd].
+          destruct (dec_bytes r) as [[payload r']|e]; [|fsd_eq].
+          destruct (msg_dec_packed (x00 :: payload) sk payload []) as [vs|e] eqn:Edp; [|fsd_eq].
+          split; [|fsd_eq]. split; [|exact U]. cbn [fst snd].
           apply fsd_append_field; [|exact F]. apply fsd_vals_scalars.
           eapply fsd_dec_packed_scalars; [exact Edp|constructor].
       - destruct (typ =? 2); [|exact HU].
-        destruct (dec_bytes r) as [[payload r']|e]; [|reflexivity].
+        destruct (dec_bytes r) as [[payload r']|e]; [|fsd_eq].
         pose proof (fsd_whole ds df t payload _ _ Hd (fsd_old_sub fd _ _ F)) as HW. unfold fsd_res_rel in *.
         destruct (msg_whole ds t payload (msg_old_sub fd (fst a_s))) as [m|e],
                  (msg_whole df t payload (msg_old_sub fd (fst a_f))) as [m'|e']; try contradiction; [|exact HW].
-        split; [|reflexivity]. split; [|exact U]. cbn [fst snd]. now apply fsd_store_sub. }
+        split; [|fsd_eq]. split; [|exact U]. cbn [fst snd]. now apply fsd_store_sub. }
     destruct (f_card fd) eqn:Ec; try apply Hnonmap.
     (* map *)
-    destruct ds2 as [d2s|], df2 as [d2f|]; try contradiction; [|reflexivity].
+    destruct ds2 as [d2s|], df2 as [d2f|]; try contradiction; [|fsd_eq].
     destruct (typ =? 2); [|exact HU].
-    destruct (dec_bytes r) as [[payload r']|e]; [|reflexivity].
+    destruct (dec_bytes r) as [[payload r']|e]; [|fsd_eq].
     set (dms := fun (p : list byte) (v : value) =>
                   match f_kind fd with
                   | KMsg tid => match msg_whole d2s tid p (msg_macc_of v) with
@@ -392,7 +402,7 @@ Section StepRel.
                   | _ => DErr DSchema
                   end).
     assert (forall p v v', fsd_val_rel v v' -> fsd_res_rel fsd_val_rel (dms p v) (dmf p v')) as HP.
-    { intros p v v' V. unfold dms, dmf. destruct (f_kind fd) as [sk|t|t]; try reflexivity.
+    { intros p v v' V. unfold dms, dmf. destruct (f_kind fd) as [sk|t|t]; try fsd_eq.
       pose proof (fsd_whole d2s d2f t p _ _ Hd2 (fsd_macc_of _ _ V)) as HW. unfold fsd_res_rel in *.
       destruct (msg_whole d2s t p (msg_macc_of v)) as [m|e], (msg_whole d2f t p (msg_macc_of v')) as [m'|e'];
         try contradiction; [|exact HW]. destruct HW. now constructor. }
@@ -402,7 +412,7 @@ Section StepRel.
     destruct (msg_dec_entry (x00 :: payload) kk kutf8 (f_kind fd) (f_utf8 fd) dms payload (sk_zero kk) (msg_entry_default (f_kind fd) vdef)) as [[key v]|e],
              (msg_dec_entry (x00 :: payload) kk kutf8 (f_kind fd) (f_utf8 fd) dmf payload (sk_zero kk) (msg_entry_default (f_kind fd) vdef)) as [[key' v']|e'];
       try contradiction; [|exact HE].
-    destruct HE as [Ek Ev]. cbn [fst snd] in Ek, Ev. subst key'. split; [|reflexivity]. cbn [fst snd].
+    destruct HE as [Ek Ev]. cbn [fst snd] in Ek, Ev. subst key'. split; [|fsd_eq]. cbn [fst snd].
     split; [|exact U]. apply fsd_fset; [exact F|]. apply fsd_map_put; [now apply fsd_fget|exact Ev].
   Qed.
 End StepRel.
@@ -413,12 +423,28 @@ Definition fsd_md_ok (md : mdesc) : Prop :=
     (forall t, f_kind fd <> KGrp t) /\ msg_field_utf8 true fd = msg_field_utf8 false fd.
 Definition fsd_schema_ok (S : schema) : Prop := forall tid md, nth_error S tid = Some md -> fsd_md_ok md.
 
+Lemma fsd_parse_end dep num bs : parse_val dep num 4 bs = Err EndGroup.
+Proof. destruct dep; reflexivity. Qed.
+
+(* an end-group tag on the reflection path: it reaches the field step and fails there *)
+Lemma fsd_step_endtag md ds ds2 raw num r acc :
+  fsd_md_ok md ->
+  msg_step true md ds ds2 raw num 4 r acc = DErr DParse \/ msg_step true md ds ds2 raw num 4 r acc = DErr DDepth.
+Proof.
+  intros Hok. unfold msg_step.
+  assert (msg_unknown raw num 4 r acc = DErr DParse) as HU by (unfold msg_unknown; now rewrite fsd_parse_end).
+  destruct (msg_find_field md num) as [fd|] eqn:Ef; [|now left].
+  destruct (Hok _ _ Ef) as [Hng _].
+  destruct (f_card fd); try (destruct ds2; [now left|now right]);
+    (destruct (f_kind fd) as [sk|t|t]; [destruct sk; now left|now left|exfalso; eapply Hng; reflexivity]).
+Qed.
+
 Lemma fsd_decode_msg_rel_le S : fsd_schema_ok S ->
   forall n d, (d <= n)%nat -> fsd_dec_rel (msg_decode_msg true S d) (msg_decode_msg false S d).
 Proof.
   intros HS. induction n as [|n IHn]; intros d Hd.
-  - assert (d = O) as -> by lia. intros tid grp g bs a_s a_f Ha. reflexivity.
-  - destruct d as [|d]; [intros tid grp g bs a_s a_f Ha; reflexivity|].
+  - assert (d = O) as -> by lia. intros tid g bs a_s a_f Ha. fsd_eq.
+  - destruct d as [|d]; [intros tid g bs a_s a_f Ha; fsd_eq|].
     assert (fsd_dec_rel (msg_decode_msg true S d) (msg_decode_msg false S d)) as IH by (apply IHn; lia).
     assert (match msg_dsub2 true S d, msg_dsub2 false S d with
             | Some a, Some b => fsd_dec_rel a b
@@ -426,14 +452,21 @@ Proof.
             | _, _ => False
             end) as IH2.
     { unfold msg_dsub2. destruct d as [|d1]; [exact I|]. apply IHn. lia. }
-    intros tid grp g. destruct (nth_error S tid) as [md|] eqn:En.
+    intros tid g. destruct (nth_error S tid) as [md|] eqn:En.
     + induction g as [|x g IHg]; intros bs a_s a_f Ha.
-      * cbn [msg_decode_msg]. rewrite En. reflexivity.
+      * cbn [msg_decode_msg]. rewrite En. fsd_eq.
       * rewrite !(msg_dm_unfold _ _ _ _ _ _ _ _ _ _ En).
-        destruct bs as [|b0 bs0]; [destruct (grp =? 0); [split; [exact Ha|reflexivity]|reflexivity]|].
-        destruct (dec_tag (b0 :: bs0)) as [[[num typ] r]|e] eqn:Ed; [|reflexivity].
-        destruct (msg_max_num <? num); [reflexivity|].
-        destruct (typ =? 4); [destruct (num =? grp); [split; [exact Ha|reflexivity]|reflexivity]|].
+        destruct bs as [|b0 bs0]; [split; [exact Ha|reflexivity]|].
+        destruct (dec_tag (b0 :: bs0)) as [[[num typ] r]|e] eqn:Ed; [|fsd_eq].
+        destruct (msg_max_num <? num); [fsd_eq|].
+        destruct (typ =? 4) eqn:E4; cbn [negb andb].
+        { (* end-group tag outside a group: both fail *)
+          apply N.eqb_eq in E4. subst typ.
+          pose proof (dec_tag_sound _ _ _ _ Ed) as (p & _ & (_ & _ & _ & Hlo & _)).
+          replace (num =? 0) with false by lia. cbv zeta iota.
+          destruct (fsd_step_endtag md (msg_decode_msg true S d) (msg_dsub2 true S d)
+                      (firstn (length (b0 :: bs0) - length r) (b0 :: bs0)) num r a_s (HS _ _ En)) as [E|E];
+            rewrite E; [left; reflexivity|right; split; reflexivity]. }
         cbv zeta iota.
         pose proof (fsd_step md (HS _ _ En) _ _ IH _ _ IH2 _ _ _ _ _ _ Ed Ha) as HSt.
         unfold fsd_res_rel in HSt |- *.
@@ -442,7 +475,7 @@ Proof.
                  (msg_step false md (msg_decode_msg false S d) (msg_dsub2 false S d) (enc_tag num typ) num typ r a_f) as [[a2 r2]|e2];
           try contradiction; [|exact HSt].
         destruct HSt as [Ha' Er]. cbn [fst snd] in Ha', Er. subst r2. now apply IHg.
-    + intros bs a_s a_f Ha. cbn [msg_decode_msg]. rewrite En. reflexivity.
+    + intros bs a_s a_f Ha. cbn [msg_decode_msg]. rewrite En. fsd_eq.
 Qed.
 
 Theorem fsd_decode_msg_rel S dep : fsd_schema_ok S ->
@@ -467,12 +500,12 @@ Proof. intros H. destruct (fsd_unk_rel_chunks _ _ H) as [cs [Hc [-> ->]]]. now a
 Lemma fsd_val_rel_normalize : forall v v', fsd_val_rel v v' -> fsm_normalize v = v'.
 Proof.
   induction v as [s|fs unk IH|k x IH] using msg_value_ind; intros v' H; inversion H; subst; cbn [fsm_normalize].
-  - reflexivity.
+  - fsd_eq.
   - rewrite (fsd_unk_rel_normalize _ _ H2). f_equal.
-    clear H H2. revert fb H4. induction fs as [|p r IHr]; intros fb HF; inversion HF; subst; cbn [map]; [reflexivity|].
+    clear H H2. revert fb H4. induction fs as [|p r IHr]; intros fb HF; inversion HF; subst; cbn [map]; [fsd_eq|].
     inversion IH as [|? ? IHp IHrest]; subst. f_equal; [|now apply IHr].
     destruct H1 as [E V]. destruct p as [n vs], y as [n' vs']. cbn [fst snd] in *. subst n'. f_equal.
-    clear -IHp V. revert vs' V. induction vs as [|a t IHt]; intros vs' V; inversion V; subst; cbn [map]; [reflexivity|].
+    clear -IHp V. revert vs' V. induction vs as [|a t IHt]; intros vs' V; inversion V; subst; cbn [map]; [fsd_eq|].
     inversion IHp as [|? ? Ha Ht']; subst. f_equal; [now apply Ha|now apply IHt].
   - f_equal. now apply IH.
 Qed.
@@ -483,7 +516,7 @@ Theorem fsd_decode_equal S limit tid bs : fsd_schema_ok S ->
               (msg_decode true S limit tid bs) (msg_decode false S limit tid bs).
 Proof.
   intros HS. unfold msg_decode, msg_decode_into.
-  pose proof (fsd_decode_msg_rel S limit HS tid 0 (x00 :: bs) bs _ _ (fsd_macc_of _ _ fsd_val_empty)) as H.
+  pose proof (fsd_decode_msg_rel S limit HS tid (x00 :: bs) bs _ _ (fsd_macc_of _ _ fsd_val_empty)) as H.
   unfold fsd_res_rel in *.
   destruct (msg_decode_msg true S limit tid 0 (x00 :: bs) bs (msg_macc_of msg_empty)) as [[m r]|e],
            (msg_decode_msg false S limit tid 0 (x00 :: bs) bs (msg_macc_of msg_empty)) as [[m' r']|e'];
